@@ -274,7 +274,7 @@ def native_schedulers_and_frame(ck):
         before = copy.deepcopy(cfg.model_dump())
         with contextlib.redirect_stdout(io.StringIO()), contextlib.redirect_stderr(io.StringIO()), dask.config.set(scheduler="synchronous"), np.errstate(all="ignore"):
             np.random.seed(ck.seed + 5)
-            C.compute(cfg)
+            first_tbl = C.compute(cfg)
         n += 1
         after = cfg.model_dump()
         if after != before:
@@ -282,6 +282,27 @@ def native_schedulers_and_frame(ck):
             sub = {k: [kk for kk in before[k] if isinstance(before[k], dict) and before[k].get(kk) != after[k].get(kk)] for k in diff if isinstance(before[k], dict)}
             fails.append({"obligation": "bounded.config_untouched", "clause": "compute() does not modify the configuration object it is given (a later run with the same object runs that configuration)",
                           "input": {"detector_altitude": alt, "thrown_events": 120}, "observed": {"sections that changed": sub or diff}})
+        # the same configuration and seed again in this process (by now the third / fourth run of the process): the same table, column by column
+        try:
+            with contextlib.redirect_stdout(io.StringIO()), contextlib.redirect_stderr(io.StringIO()), dask.config.set(scheduler="synchronous"), np.errstate(all="ignore"):
+                np.random.seed(ck.seed + 5)
+                again = C.compute(cfg)
+            n += 1
+            bad_col = None
+            if again.colnames != first_tbl.colnames or len(again) != len(first_tbl):
+                bad_col = "columns / rows: %s x %d vs %s x %d" % (len(again.colnames), len(again), len(first_tbl.colnames), len(first_tbl))
+            else:
+                for cn in first_tbl.colnames:
+                    a_, b_ = np.asarray(first_tbl[cn]), np.asarray(again[cn])
+                    same_ = np.array_equal(a_, b_, equal_nan=True) if a_.dtype.kind in "fc" else np.array_equal(a_, b_)
+                    if not same_:
+                        bad_col = cn
+                        break
+            if bad_col is not None:
+                fails.append({"obligation": "bounded.reproducible_in_process", "clause": "a run is a function of configuration and seed: repeated in the same process (after other runs) it gives the same table bit for bit",
+                              "input": {"detector_altitude": alt, "thrown_events": 120, "seed": ck.seed + 5, "runs before it in this process": "yes"}, "observed": {"first differing column": bad_col}})
+        except Exception as ex:
+            fails.append({"obligation": "bounded.reproducible_in_process", "clause": "a run repeated in the same process completes", "input": {"detector_altitude": alt, "seed": ck.seed + 5}, "observed": "raised %r" % ex})
     return {"evaluations": n, "failures": fails}
 
 
